@@ -258,6 +258,15 @@ func (s *Stream) decode(r io.Reader, parsedTypes TypeMap, p2p bool) (TypeMap,
 		// Otherwise, the record type is unknown and is odd, discard the
 		// number of bytes specified by length.
 		default:
+			// A length beyond the int64 range can't be backed by
+			// any reader. It would also turn into a negative count
+			// for io.CopyN, which then copies nothing and reports
+			// success, so the record would be accepted without its
+			// value.
+			if length > math.MaxInt64 {
+				return nil, io.ErrUnexpectedEOF
+			}
+
 			// If the caller provided an initialized TypeMap, record
 			// the encoded bytes.
 			var b *bytes.Buffer
